@@ -359,6 +359,176 @@ func Main(a int) int {
 `, Fn: "Main", Args: []Arg{{T: "int", I: 1}}, Res: "int", GoWant: "PANIC"})
 }
 
+// Findings that came out of the side notes of the round-4 readers (generator: side.go). All of them had a small
+// repair; the reproductions document what the unrepaired compiler did.
+func init() {
+	iarg := func(v int64) []Arg { return []Arg{{T: "int", I: v}} }
+	findings = append(findings,
+		finding{Key: kGoto, What: "goto is compiled to nothing (codegen.go BranchStmt: only break and continue emit a jump), so statements that should be skipped or repeated run in source order; repaired by refusing to compile goto",
+			Src: `package foo
+
+func Main(a int) int {
+	i := 0
+L:
+	i++
+	if i < 3 {
+		goto L
+	}
+	return i + a
+}
+`, Fn: "Main", Args: iarg(0), Res: "int", GoWant: "i:3"},
+		finding{Key: kCompoundIdx, What: "s[f()] += v and s[f()]++ evaluate the container and index expressions twice: once to load the element, once to store it (codegen.go AssignStmt / IncDecStmt + emitStoreIndexExpr)",
+			Src: `package foo
+
+var n int
+
+func next() int {
+	n++
+	return n & 1
+}
+
+func Main(a int) int {
+	s := []int{10, 20}
+	s[next()] += 5
+	return s[0]*1000 + s[1]*10 + n + a
+}
+`, Fn: "Main", Args: iarg(0), Res: "int", GoWant: "i:10251"},
+		finding{Key: kTupleOrder, What: "a tuple assignment stores from right to left and evaluates the index operands on the left when it stores: s[i], i = 5, 2 writes s[2], and a, a = 1, 2 leaves 1 (Go: operands on the left first, then the right-hand side, then stores from left to right)",
+			Src: `package foo
+
+func Main(a int) int {
+	s := []int{0, 0, 0}
+	i := 0
+	s[i], i = 5, 2
+	x := 0
+	x, x = 1, 2
+	return s[0]*100 + s[2]*10 + x + a
+}
+`, Fn: "Main", Args: iarg(0), Res: "int", GoWant: "i:502"},
+		finding{Key: kAppendSelf, What: "append(s, s...) never ends: the copy loop reads the length of the second argument on every iteration and both arguments are the same Array (FAULT: stack is too big)",
+			Src: `package foo
+
+func Main(a int) int {
+	s := []int{1, 2}
+	s = append(s, s...)
+	return len(s)*10 + s[3] + a
+}
+`, Fn: "Main", Args: iarg(0), Res: "int", GoWant: "i:42"},
+		finding{Key: kBytesLitOrder, What: "the non-constant elements of []byte{f(), g()} are evaluated in the order of a Go map iteration (codegen.go convertByteSliceOrArray): the calls run in a random order and two compilations of one source give different scripts",
+			Src: `package foo
+
+var n int
+
+func next() int {
+	n++
+	return n
+}
+
+func Main(a int) int {
+	b := []byte{byte(next()), byte(next()), byte(next()), byte(next())}
+	return int(b[0])*1000 + int(b[1])*100 + int(b[2])*10 + int(b[3]) + a
+}
+`, Fn: "Main", Args: iarg(0), Res: "int", GoWant: "i:1234"},
+		finding{Key: kRangeMapDel, What: "range over a map collects the keys first; an entry deleted by the loop body before it is reached is visited all the same: the value lookup faults (Key not found in Map), a loop without value variable runs its body for it",
+			Src: `package foo
+
+func Main(a int) int {
+	m := map[int]int{1: 1, 2: 2, 3: 3}
+	c := 0
+	for k, v := range m {
+		_ = v
+		_ = k
+		for k2 := range m {
+			delete(m, k2)
+		}
+		c++
+	}
+	return c + a
+}
+`, Fn: "Main", Args: iarg(0), Res: "int", GoWant: "i:1"},
+		finding{Key: kDeleteNilMap, What: "delete(m, k) with a nil map faults in REMOVE (Go: no-op)",
+			Src: `package foo
+
+func Main(a int) int {
+	var m map[int]int
+	delete(m, 1)
+	return len(m) + 7 + a
+}
+`, Fn: "Main", Args: iarg(0), Res: "int", GoWant: "i:7"},
+		finding{Key: kNamedRedecl, What: "r, x := 5, 6 at the top level of a function body assigns the named result r in Go (results and body share one scope); the compiler opened a new scope for the body and made a second r, so after a recovered panic the function returned the first one",
+			Src: `package foo
+
+func f(a int) (r int) {
+	defer func() {
+		recover()
+	}()
+	r, x := 5, 6
+	_ = x
+	if a > 0 {
+		panic("boom")
+	}
+	return r
+}
+
+func Main(a int) int {
+	return f(a)
+}
+`, Fn: "Main", Args: iarg(1), Res: "int", GoWant: "i:5"},
+		finding{Key: kNilMapRead, What: "m[k] and v, ok := m[k] with a nil map fault in HASKEY (Go: zero value, false)",
+			Src: `package foo
+
+func Main(a int) int {
+	var m map[int]int
+	v, ok := m[a]
+	if ok {
+		return 1
+	}
+	return m[a] + v + 7
+}
+`, Fn: "Main", Args: iarg(0), Res: "int", GoWant: "i:7"},
+		finding{Key: kAppendNil, What: "append(s, t...) with a nil slice t faults in SIZE (Go: nothing is appended)",
+			Src: `package foo
+
+func Main(a int) int {
+	var t []int
+	s := []int{1}
+	s = append(s, t...)
+	return len(s) + 6 + a
+}
+`, Fn: "Main", Args: iarg(0), Res: "int", GoWant: "i:7"},
+		finding{Key: kLitOrder, What: "the elements of slice, map and struct literals and the operands of a multi-value return are compiled from the last to the first (the first one has to end up on top of the stack for PACK / PACKMAP / RET), so calls in them run from right to left; Go runs them from left to right. Call arguments, binary expressions, tuple assignments, append arguments and []byte literals are in order. A repair has to touch four code generators (emitArrayOrSlice, convertMap, convertStruct, ReturnStmt) and costs a REVERSE per literal",
+			Src: `package foo
+
+var n int
+
+func next() int {
+	n++
+	return n
+}
+
+func Main(a int) int {
+	s := []int{next(), next()}
+	return s[0]*10 + s[1] + a
+}
+`, Fn: "Main", Args: iarg(0), Res: "int", GoWant: "i:12"},
+		finding{Key: kLambdaOrder, What: "the bodies of function literals are emitted by ranging over a Go map (codegen.go convertFuncDecl): with two literals in one function two compilations of one source give different scripts",
+			Src: `package foo
+
+var g int
+
+func Main(a int) int {
+	defer func() {
+		g++
+	}()
+	defer func() {
+		g += 2
+	}()
+	return 7 + a
+}
+`, Fn: "Main", Args: iarg(0), Res: "int", GoWant: "i:7"},
+	)
+}
+
 // runFinding executes the neo-go side of a reproduction and renders the outcome in the notation of the check.
 func runFinding(f finding) string {
 	nf, di, err, crash := compileProg("finding.go", f.Src)
